@@ -6,35 +6,13 @@
 package storage
 
 //@ -- ═════════ key space of the cache DB ═════════
-//@ --   CACHETRANSACTIONQUEUE | be64(ts) | hash     the scheduling record (one per queueing), kind 10, 21 + 8 + 32 = 61 bytes
-//@ --   CACHETRANSACTIONORDER | hash                "is queued" marker, kind 11
-//@ --   CACHETRANSACTIONPAYLOAD | hash              the stored body, kind 12
+//@ --   CACHETRANSACTIONQUEUE | be64(ts) | hash     the scheduling record (one per queueing), kind 30, 21 + 8 + 32 = 61 bytes
+//@ --   CACHETRANSACTIONORDER | hash                "is queued" marker, kind 31
+//@ --   CACHETRANSACTIONPAYLOAD | hash              the stored body, kind 32
 //@ -- ASSUMED like the key space of zz_contracts_c03_verif.go: the three prefixes differ at byte 16 ('Q', 'O', 'P'), so they are prefix-free and
 //@ -- an ORDER/PAYLOAD key does not carry the QUEUE prefix; widths are fixed, so the constructors are injective and parsing inverts them
 //@ -- (keynum = ts, keyhid = id of the 32 hash bytes); bytes [29, 61) of a queue key are the hash (kvsub).
-//@ uninterp QueueKeyId(ts mathint, h mathint) mathint
-//@ uninterp OrderKeyId(h mathint) mathint
-//@ uninterp PayloadKeyId(h mathint) mathint
-//@ axiom forall ts, h mathint :: {QueueKeyId(ts, h)} keykind(QueueKeyId(ts, h)) == 10 && keyhid(QueueKeyId(ts, h)) == h && badger.keylen(QueueKeyId(ts, h)) == 61 && kvsub(QueueKeyId(ts, h), 29, 61) == h &&
-//@     badger.keypfx(QueueKeyId(ts, h), strkey(cachePrefixTransactionQueue)) == 0 && (0 <= ts && ts < 18446744073709551616 ==> keynum(QueueKeyId(ts, h)) == ts)
-//@ axiom forall h mathint :: {OrderKeyId(h)} keykind(OrderKeyId(h)) == 11 && keyhid(OrderKeyId(h)) == h && badger.keypfx(OrderKeyId(h), strkey(cachePrefixTransactionQueue)) != 0
-//@ axiom forall h mathint :: {PayloadKeyId(h)} keykind(PayloadKeyId(h)) == 12 && keyhid(PayloadKeyId(h)) == h && badger.keypfx(PayloadKeyId(h), strkey(cachePrefixTransactionQueue)) != 0
-//@ spec QK(ts mathint, h crypto.Hash) mathint = QueueKeyId(ts, kvval(h))
-//@ spec OK(h crypto.Hash) mathint = OrderKeyId(kvval(h))
-//@ spec PK(h crypto.Hash) mathint = PayloadKeyId(kvval(h))
-//@ spec IsQueueKey(k mathint) bool = k == QueueKeyId(keynum(k), keyhid(k)) && 0 <= keynum(k) && keynum(k) < 18446744073709551616
-
-//@ assume func cacheTransactionCacheKey
-//@   modifies nothing
-//@   ensures fresh(result) && len(result) > 0 && kvkey(result) == PK(hash)
-//@ assume func cacheTransactionOrderKey
-//@   modifies nothing
-//@   ensures fresh(result) && len(result) > 0 && kvkey(result) == OK(hash)
-//@ -- the queue key of (0, zero hash) is the LEAST queue key (all-zero suffix after the common prefix): where CacheRetrieveTransactions seeks to
-//@ assume func cacheTransactionQueueKey
-//@   modifies nothing
-//@   ensures fresh(result) && len(result) > 0 && kvkey(result) == QK(ts, hash)
-//@   ensures [least] ts == 0 && !hash.HasValue() ==> forall t2, h2 mathint :: {badger.keylt(QueueKeyId(t2, h2), kvkey(result))} !badger.keylt(QueueKeyId(t2, h2), kvkey(result))
+//@ -- (QueueKeyId kind 30, OrderKeyId kind 31, PayloadKeyId kind 32, QK, OK, PK, IsQueueKey and the cache…Key constructors: zz_contracts_keyspace_verif.go)
 
 //@ -- ═════════ abstract state (Q, O, P) of the cache DB ═════════
 //@ spec Body(t badger.Txn, h crypto.Hash) mathint = badger.kvget(t, PK(h))                 -- id of the stored body, 0 = none
@@ -85,7 +63,7 @@ package storage
 //@   ensures [marked] err == nil ==> DbMarked(*s.cacheDB, tx.hash)
 //@   ensures [already] let H == tx.hash in old(DbMarked(*s.cacheDB, H)) ==> err != nil || *s.cacheDB == old(*s.cacheDB) || (DbBody(*s.cacheDB, H) != 0 && DbQueued(*s.cacheDB, H))
 //@   ensures [queued] let H == tx.hash in err == nil && !old(DbMarked(*s.cacheDB, H)) ==> DbBody(*s.cacheDB, H) != 0 && common.TxHashOfVal(DbBody(*s.cacheDB, H)) == H && DbQueued(*s.cacheDB, H)
-//@   ensures [frame] forall k mathint :: {badger.dbget(*s.cacheDB, k)} keyhid(k) != kvval(tx.hash) || (keykind(k) != 10 && keykind(k) != 11 && keykind(k) != 12) ==> badger.dbget(*s.cacheDB, k) == old(badger.dbget(*s.cacheDB, k))
+//@   ensures [frame] forall k mathint :: {badger.dbget(*s.cacheDB, k)} keyhid(k) != kvval(tx.hash) || (keykind(k) != 30 && keykind(k) != 31 && keykind(k) != 32) ==> badger.dbget(*s.cacheDB, k) == old(badger.dbget(*s.cacheDB, k))
 //@   ensures [only-adds] forall k mathint :: {badger.dbget(*s.cacheDB, k)} old(badger.dbget(*s.cacheDB, k)) != 0 ==> badger.dbget(*s.cacheDB, k) != 0
 
 //@ -- ═════════ removal: "removal deletes the body" ═════════
@@ -96,9 +74,9 @@ package storage
 //@   requires txn != nil && iscell(txn) && batch == 100
 //@   modifies *txn
 //@   ensures [removed] err == nil ==> forall j int :: {hashes[j]} 0 <= j && j < len(hashes) && j <= batch ==> Body(*txn, hashes[j]) == 0 && !Marked(*txn, hashes[j])
-//@   ensures [only-deleted] forall k mathint :: {badger.kvget(*txn, k)} badger.kvget(*txn, k) == old(badger.kvget(*txn, k)) || (badger.kvget(*txn, k) == 0 && (keykind(k) == 11 || keykind(k) == 12))
+//@   ensures [only-deleted] forall k mathint :: {badger.kvget(*txn, k)} badger.kvget(*txn, k) == old(badger.kvget(*txn, k)) || (badger.kvget(*txn, k) == 0 && (keykind(k) == 31 || keykind(k) == 32))
 //@   loop 0 invariant [removed] forall j int :: {hashes[j]} 0 <= j && j <= rangeindex ==> Body(*txn, hashes[j]) == 0 && !Marked(*txn, hashes[j])
-//@   loop 0 invariant [only-deleted] forall k mathint :: {badger.kvget(*txn, k)} badger.kvget(*txn, k) == old(badger.kvget(*txn, k)) || (badger.kvget(*txn, k) == 0 && (keykind(k) == 11 || keykind(k) == 12))
+//@   loop 0 invariant [only-deleted] forall k mathint :: {badger.kvget(*txn, k)} badger.kvget(*txn, k) == old(badger.kvget(*txn, k)) || (badger.kvget(*txn, k) == 0 && (keykind(k) == 31 || keykind(k) == 32))
 //@   loop 0 invariant [bound] rangeindex < batch && batch == 100
 
 //@ -- CacheRemoveTransactions: every hash of the list loses its body and its marker (scheduling records are left to the next retrieval,
@@ -109,10 +87,10 @@ package storage
 //@   requires s != nil && s.cacheDB != nil
 //@   modifies *s.cacheDB
 //@   ensures [removed] err == nil ==> forall j int :: {hashes[j]} 0 <= j && j < len(hashes) ==> DbBody(*s.cacheDB, hashes[j]) == 0 && !DbMarked(*s.cacheDB, hashes[j])
-//@   ensures [only-deleted] forall k mathint :: {badger.dbget(*s.cacheDB, k)} badger.dbget(*s.cacheDB, k) == old(badger.dbget(*s.cacheDB, k)) || (badger.dbget(*s.cacheDB, k) == 0 && (keykind(k) == 11 || keykind(k) == 12))
+//@   ensures [only-deleted] forall k mathint :: {badger.dbget(*s.cacheDB, k)} badger.dbget(*s.cacheDB, k) == old(badger.dbget(*s.cacheDB, k)) || (badger.dbget(*s.cacheDB, k) == 0 && (keykind(k) == 31 || keykind(k) == 32))
 //@   loop 0 invariant [suffix] len(cur_hashes) <= len(hashes) && batch == 100 && cur_hashes == hashes[len(hashes) - len(cur_hashes):]
 //@   loop 0 invariant [done] forall j int :: {hashes[j]} 0 <= j && j < len(hashes) - len(cur_hashes) ==> DbBody(*s.cacheDB, hashes[j]) == 0 && !DbMarked(*s.cacheDB, hashes[j])
-//@   loop 0 invariant [only-deleted] forall k mathint :: {badger.dbget(*s.cacheDB, k)} badger.dbget(*s.cacheDB, k) == old(badger.dbget(*s.cacheDB, k)) || (badger.dbget(*s.cacheDB, k) == 0 && (keykind(k) == 11 || keykind(k) == 12))
+//@   loop 0 invariant [only-deleted] forall k mathint :: {badger.dbget(*s.cacheDB, k)} badger.dbget(*s.cacheDB, k) == old(badger.dbget(*s.cacheDB, k)) || (badger.dbget(*s.cacheDB, k) == 0 && (keykind(k) == 31 || keykind(k) == 32))
 //@   -- proof guidance (checked, then assumed): the closure's [removed] clause re-indexed to the original list; the body names the element
 //@   -- cur_hashes[j - D] of the current window explicitly so that the solver instantiates the closure's clause there
 //@   hint after Update [batch] let D == len(hashes) - len(cur_hashes) in callresult == nil ==> forall j int :: {hashes[j]} D <= j && j < len(hashes) && j - D <= 100 ==>
@@ -146,15 +124,15 @@ package storage
 //@   ensures [consumed] err == nil ==> forall i int :: {txs[i]} 0 <= i && i < len(txs) ==> let T == THash(txs[i]) in exists ts mathint :: {QueueKeyId(ts, kvval(T))} 0 <= ts && ts < 18446744073709551616 &&
 //@       old(badger.kvget(*txn, QK(ts, T))) != 0 && badger.kvget(*txn, QK(ts, T)) == 0
 //@   ensures [requeue-possible] err == nil ==> forall i int :: {txs[i]} 0 <= i && i < len(txs) ==> !Marked(*txn, THash(txs[i]))
-//@   ensures [body-kept] err == nil ==> forall k mathint :: {badger.kvget(*txn, k)} keykind(k) != 10 && keykind(k) != 11 ==> badger.kvget(*txn, k) == old(badger.kvget(*txn, k))
+//@   ensures [body-kept] err == nil ==> forall k mathint :: {badger.kvget(*txn, k)} keykind(k) != 30 && keykind(k) != 31 ==> badger.kvget(*txn, k) == old(badger.kvget(*txn, k))
 //@   ensures [only-deleted] err == nil ==> forall k mathint :: {badger.kvget(*txn, k)} badger.kvget(*txn, k) == old(badger.kvget(*txn, k)) || badger.kvget(*txn, k) == 0
-//@   ensures [pairs] err == nil ==> forall k mathint :: {badger.kvget(*txn, k)} keykind(k) == 10 && old(badger.kvget(*txn, k)) != 0 && badger.kvget(*txn, k) == 0 ==> badger.kvget(*txn, OrderKeyId(keyhid(k))) == 0
+//@   ensures [pairs] err == nil ==> forall k mathint :: {badger.kvget(*txn, k)} keykind(k) == 30 && old(badger.kvget(*txn, k)) != 0 && badger.kvget(*txn, k) == 0 ==> badger.kvget(*txn, OrderKeyId(keyhid(k))) == 0
 //@   loop 0 invariant [state] *txn == old(*txn) && filter != nil && (len(txs) <= limit || len(txs) == 0)
 //@   loop 0 invariant [fresh] (cap(txs) == 0 || fresh(txs)) && (cap(processed) == 0 || fresh(processed))
 //@   loop 0 invariant [cursor] badger.itkey(*it) != 0 ==> IsQueueKey(badger.itkey(*it)) && badger.itget(it, badger.itkey(*it)) != 0
 //@   -- `processed` lists scheduling records the scan has passed and ORDER markers, in blocks that are not the local array `hash`
-//@   loop 0 invariant [kinds] forall m int :: {processed[m]} 0 <= m && m < len(processed) ==> arr(processed[m]) != &hash && (keykind(kvkey(processed[m])) == 10 || keykind(kvkey(processed[m])) == 11) &&
-//@       (keykind(kvkey(processed[m])) == 10 ==> IsQueueKey(kvkey(processed[m])) && (badger.itkey(*it) == 0 || badger.keylt(kvkey(processed[m]), badger.itkey(*it))))
+//@   loop 0 invariant [kinds] forall m int :: {processed[m]} 0 <= m && m < len(processed) ==> arr(processed[m]) != &hash && (keykind(kvkey(processed[m])) == 30 || keykind(kvkey(processed[m])) == 31) &&
+//@       (keykind(kvkey(processed[m])) == 30 ==> IsQueueKey(kvkey(processed[m])) && (badger.itkey(*it) == 0 || badger.keylt(kvkey(processed[m]), badger.itkey(*it))))
 //@   -- every scheduling record the scan has passed is listed, and so is the marker of its hash
 //@   loop 0 invariant [covered-q] forall k mathint :: {badger.itget(it, k)} Vis(it, badger.itkey(*it), k) ==> exists m int :: {processed[m]} 0 <= m && m < len(processed) && kvkey(processed[m]) == k
 //@   loop 0 invariant [covered-o] forall k mathint :: {badger.itget(it, k)} Vis(it, badger.itkey(*it), k) ==> exists m int :: {processed[m]} 0 <= m && m < len(processed) && kvkey(processed[m]) == OrderKeyId(keyhid(k))
@@ -186,9 +164,9 @@ package storage
 //@   ensures [consumed] err == nil ==> forall i int :: {result0[i]} 0 <= i && i < len(result0) ==> let T == THash(result0[i]) in exists ts mathint :: {QueueKeyId(ts, kvval(T))} 0 <= ts && ts < 18446744073709551616 &&
 //@       old(badger.dbget(*s.cacheDB, QK(ts, T))) != 0 && badger.dbget(*s.cacheDB, QK(ts, T)) == 0
 //@   ensures [requeue-possible] err == nil ==> forall i int :: {result0[i]} 0 <= i && i < len(result0) ==> !DbMarked(*s.cacheDB, THash(result0[i]))
-//@   ensures [body-kept] forall k mathint :: {badger.dbget(*s.cacheDB, k)} keykind(k) != 10 && keykind(k) != 11 ==> badger.dbget(*s.cacheDB, k) == old(badger.dbget(*s.cacheDB, k))
+//@   ensures [body-kept] forall k mathint :: {badger.dbget(*s.cacheDB, k)} keykind(k) != 30 && keykind(k) != 31 ==> badger.dbget(*s.cacheDB, k) == old(badger.dbget(*s.cacheDB, k))
 //@   ensures [only-deleted] forall k mathint :: {badger.dbget(*s.cacheDB, k)} badger.dbget(*s.cacheDB, k) == old(badger.dbget(*s.cacheDB, k)) || badger.dbget(*s.cacheDB, k) == 0
-//@   ensures [pairs] forall k mathint :: {badger.dbget(*s.cacheDB, k)} keykind(k) == 10 && old(badger.dbget(*s.cacheDB, k)) != 0 && badger.dbget(*s.cacheDB, k) == 0 ==> badger.dbget(*s.cacheDB, OrderKeyId(keyhid(k))) == 0
+//@   ensures [pairs] forall k mathint :: {badger.dbget(*s.cacheDB, k)} keykind(k) == 30 && old(badger.dbget(*s.cacheDB, k)) != 0 && badger.dbget(*s.cacheDB, k) == 0 ==> badger.dbget(*s.cacheDB, OrderKeyId(keyhid(k))) == 0
 
 //@ -- ═════════ the public entry points: up to three attempts while the commit reports a conflict ═════════
 //@ -- A failed attempt leaves the cache DB unchanged ([atomic] of the inner function), so the clauses of the last attempt hold for the whole call.
@@ -210,6 +188,6 @@ package storage
 //@   ensures [atomic] err != nil ==> *s.cacheDB == old(*s.cacheDB)
 //@   ensures [marked] err == nil ==> DbMarked(*s.cacheDB, tx.hash)
 //@   ensures [queued] let H == tx.hash in err == nil && !old(DbMarked(*s.cacheDB, H)) ==> DbBody(*s.cacheDB, H) != 0 && common.TxHashOfVal(DbBody(*s.cacheDB, H)) == H && DbQueued(*s.cacheDB, H)
-//@   ensures [frame] forall k mathint :: {badger.dbget(*s.cacheDB, k)} keyhid(k) != kvval(tx.hash) || (keykind(k) != 10 && keykind(k) != 11 && keykind(k) != 12) ==> badger.dbget(*s.cacheDB, k) == old(badger.dbget(*s.cacheDB, k))
+//@   ensures [frame] forall k mathint :: {badger.dbget(*s.cacheDB, k)} keyhid(k) != kvval(tx.hash) || (keykind(k) != 30 && keykind(k) != 31 && keykind(k) != 32) ==> badger.dbget(*s.cacheDB, k) == old(badger.dbget(*s.cacheDB, k))
 //@   ensures [only-adds] forall k mathint :: {badger.dbget(*s.cacheDB, k)} old(badger.dbget(*s.cacheDB, k)) != 0 ==> badger.dbget(*s.cacheDB, k) != 0
 //@   loop 0 invariant rangeint_iter < 3 && CacheOK(s) && common.DecodedTx(&tx.SignedTransaction) && *s.cacheDB == old(*s.cacheDB)
